@@ -64,7 +64,7 @@ theorem loop_free (eng : Engine E) (hf : eng.CallLocalFree) (ts : List (List CLi
 
 theorem run_file_fields (eng : Engine E) (w : W E) (hdb : w.dbLoaded = true) (t : Bytes) :
     let r := (w.run eng (.file (some t))).1
-    let l := loop eng 1 true w.engine (simulations t)
+    let l := loop eng 1 true w.engine (eng.sims t)
     r.engine = l.engine ∧ r.tables = l.rows ∧ r.inputError = l.inputError ∧ r.ioErrors = l.io ∧
     r.dbLoaded = true ∧ r.updateComponents = true ∧ r.simulation = l.simulation ∧ r.stringInput = [] ∧
     r.clearAccumulated = false := by
@@ -73,6 +73,20 @@ theorem run_file_fields (eng : Engine E) (w : W E) (hdb : w.dbLoaded = true) (t 
 theorem rc_zero_iff (w : W E) : w.rc = 0 ↔ w.inputError = 0 ∧ w.ioErrors = 0 := by
   unfold W.rc
   by_cases h : w.inputError = 0 <;> simp [h]
+
+/-- with the plain reader an END boundary of the reader model is a boundary -/
+theorem boundary_of_endBoundary (eng : Engine E) (hl : eng.lines = readLines) (a : Bytes) (h : endBoundary a = true) :
+    eng.boundary a := by
+  intro b
+  simp only [Engine.sims, hl]
+  exact simulations_append' a b h
+
+/-- … and with include files followed, an END boundary of the expanded text is one -/
+theorem boundary_of_endBoundaryFS (eng : Engine E) (fs : Bytes → Option Bytes) (d : Nat) (hl : eng.lines = linesFS fs d)
+    (a : Bytes) (h : endBoundaryFS fs d a = true) : eng.boundary a := by
+  intro b
+  simp only [Engine.sims, hl]
+  exact simulationsFS_append' fs d a b h
 
 /-! ### accumulate buffer -/
 
